@@ -15,14 +15,19 @@ def mkfiber(coords, rid, vals=None):
     return f
 
 
-def run_intersect(pairs, batching, model):
-    """batching: list of batch sizes summing to len(pairs)"""
+def run_intersect(pairs, batching, model, outer2=0, tuplew=0):
+    """batching: list of batch sizes summing to len(pairs).  outer2: two loop ranks above the intersected one (I over the pairs, J with the single coordinate 0, so that
+    consecutive K fibers share their J coordinate); tuplew: the K coordinates are the tuples (c // w, c % w), flattened for the traces through Metrics.associateShape"""
     n = len(pairs)
-    c_j = mkfiber(range(n), "J")
+    c_j = mkfiber(range(n), "I" if outer2 else "J")
     isect = {"tf": TwoFingerIntersector, "skip": SkipAheadIntersector}[model]()
-    fibers = [(mkfiber(a, "K"), mkfiber(b, "K")) for a, b in pairs]
+    tup = (lambda cs: [(c // tuplew, c % tuplew) for c in cs]) if tuplew else (lambda cs: cs)
+    fibers = [(mkfiber(tup(a), "K", vals=[1] * len(a)), mkfiber(tup(b), "K", vals=[1] * len(b))) for a, b in pairs]
     Metrics.beginCollect()
     try:
+        if tuplew:
+            top = max([c for a, b in pairs for c in a + b] + [0])
+            Metrics.associateShape("K", (top // tuplew + 1, tuplew))
         Metrics.trace("K", "intersect_0", consumable=True)
         Metrics.trace("K", "intersect_1", consumable=True)
         bounds = []
@@ -33,8 +38,9 @@ def run_intersect(pairs, batching, model):
         done = 0
         for j, _ in c_j:
             a_k, b_k = fibers[j]
-            for _ in a_k & b_k:
-                pass
+            for _ in (mkfiber([0], "J") if outer2 else [(0, 1)]):
+                for _ in a_k & b_k:
+                    pass
             done += 1
             if done in bounds:
                 isect.addTraces(Metrics.consumeTrace("K", "intersect_0"), Metrics.consumeTrace("K", "intersect_1"))
@@ -81,8 +87,12 @@ def execute(case):
                 r = {"batching": b}
                 for model in ("tf", "skip"):
                     try:
-                        r[model] = run_intersect(case["pairs"], b, model)
+                        r[model] = run_intersect(case["pairs"], b, model, case.get("outer2", 0), 0)
                         r[model + "_exc"] = "ok"
+                        for w in case.get("tuplew", []):
+                            # the same lists as tuple coordinates of two different widths, one session after the other: the totals do not depend on the encoding
+                            if run_intersect(case["pairs"], b, model, case.get("outer2", 0), w) != r[model]:
+                                r[model] = -2
                     except BaseException as ex:  # noqa: B036
                         r[model] = -1
                         r[model + "_exc"] = "err:" + type(ex).__name__
